@@ -54,7 +54,8 @@ CHECKS = {
                 "every term of J (previous-row value squared times the time "
                 "step, gamma on controls, first states skipped), its cell "
                 "discipline, dest sizing and J = sum / simulated time."
-                " D10.9: every call of run_ode / multi_run_ode passes a setting named like a callee parameter as that parameter and does not mix test_* and training_* settings in one run.",
+                " D10.9: every call of run_ode / multi_run_ode passes a setting named like a callee parameter as that parameter and does not mix test_* and training_* settings in one run."
+                " At a call of an ode helper, a defaulted parameter is not left to its default when the caller holds a setting of that name.",
         "design_ref": "DESIGN.md section 4, C10 and 10.2",
         "note": "Does NOT decide termination/accuracy inside scipy's RK45, "
                 "strict monotonicity of float times, agreement with "
@@ -144,7 +145,8 @@ CHECKS = {
                 "largest distance, the upper-bound expression, the kernel "
                 "wiring and the instance's own bound are polynomial "
                 "identities."
-                " D8.3: every plan length lies within [0, upper_bound()] (lemma from the transition structure and the penalty margin); a declared bound above n*days*penalty is accepted, one below the length of the plan without games is refuted by evaluating the bound polynomial.",
+                " D8.3: every plan length lies within [0, upper_bound()] (lemma from the transition structure and the penalty margin); a declared bound above n*days*penalty is accepted, one below the length of the plan without games is refuted by evaluating the bound polynomial."
+                " The RobinX loader stores the distance team1 -> team2 in distances[team1, team2] (D8.4).",
         "design_ref": "DESIGN.md section 4, C08",
         "note": "The bounds clause is decided through lemma L8 (D8.3), "
                 "whose premises are the obligations D8.1/D8.2. Does NOT "
@@ -174,7 +176,8 @@ CHECKS = {
                 "home/away roles per pairing differ by at most one."
                 " An `else` of the day scan that leaves the loop over the games is reported (later games would be lost)."
                 " The game loop visits the whole permutation: a slice is compared with the number of games for n = 2..9 teams and 1..4 rounds by evaluating its bound polynomial."
-                " The plan array is allocated with the instance's game_plan_dtype = int_range_to_dtype(-n, n), which holds every entry the decoder stores (D15.5).",
+                " The plan array is allocated with the instance's game_plan_dtype = int_range_to_dtype(-n, n), which holds every entry the decoder stores (D15.5)."
+                " No continue / break / return of the game loop lies outside the scan over the days.",
         "design_ref": "DESIGN.md section 4, C15",
         "note": "Does NOT decide the home/away balance per TEAM in the "
                 "special last round (parity argument over the triangular "
@@ -286,7 +289,8 @@ CHECKS = {
                 "aggregates by mean / exp(mean(log(J+1)))-1; "
                 "get_differentials replaces each collection by exactly its "
                 "own concatenation."
-                " SurrogateOptimizer.solve writes model equations only into a private copy of the system (D11.9).",
+                " SurrogateOptimizer.solve writes model equations only into a private copy of the system (D11.9)."
+                " The loop over the training cases is not left by `break` (the aggregate would read stale entries of the results field).",
         "design_ref": "DESIGN.md section 4, C11",
         "note": "Decides D11.1-D11.8 (controller purity = C16 D16.6). Does not decide "
                 "history dependence that lives inside scipy/numba. "
@@ -390,7 +394,8 @@ CHECKS = {
                 "instance's bin width and height in this order."
                 " Loop-carried names of the per-bin sweep (area accumulator, position) must be set again at the start of every bin."
                 " The declared upper bound is accepted when it is coefficient-wise at least n_items*S or the recognised tight form of its tie-breaker kind, and refuted by evaluating the bound polynomial for two families of feasible packings with known value; a constant offset of the per-bin table index is normalised into the slice bounds."
-                " The declared lower bounds are evaluated on three families of feasible packings with known value (one item filling the bin, n unit squares in one bin, two bin-filling items) and must not exceed it.",
+                " The declared lower bounds are evaluated on three families of feasible packings with known value (one item filling the bin, n unit squares in one bin, two bin-filling items) and must not exceed it."
+                " Scratch arrays that accumulate products (areas) have the 64-bit integer cell type; scratch arrays that count may also use the instance's type (D2.3).",
         "design_ref": "DESIGN.md section 4, C02 and 10.2",
         "note": "Decides D2.1-D2.6. Validity of lower_bound() for the "
                 "objectives with a secondary term is decided only as a "
@@ -421,7 +426,8 @@ CHECKS = {
                 "the similarity objective pairs every statistic of the "
                 "instance with the same statistic of the template, hence "
                 "is 0 on the template."
-                " The hardness objective is a function of the instance: the seeds of its runs come from the instance name on every path, stored seeds are re-used only behind `stored name == name`, seeds and name are stored together, and nothing else computed from an evaluated instance is kept.",
+                " The hardness objective is a function of the instance: the seeds of its runs come from the instance name on every path, stored seeds are re-used only behind `stored name == name`, seeds and name are stored together, and nothing else computed from an evaluated instance is kept."
+                " In the instance-generation package a parameter annotated Iterable is traversed at most once before it is materialised (D17.11).",
         "design_ref": "DESIGN.md section 4, C17 and 10.2",
         "note": "Decides D17.1-D17.9. Not decided: lower_bound_bins == "
                 "min_bins as a value (needs the validity of the DAMV "
@@ -446,7 +452,8 @@ CHECKS = {
                 "checked by symbolic dataflow."
                 " The kernel rules are path-wise: every path through a move kernel is followed symbolically; paths that write the tour must entail the acceptance criterion, reverse x[i..j] exactly once and return y + the 2-opt delta; every other path must entail the negated criterion and return y."
                 " When index arithmetic is not a pure ordering question, the move index contract is decided by evaluating the symbolic index expressions and path condition for all draws of instances with 2..8 cities (a counterexample is a finding, none is undecided)."
-                " The frequency table is logged with offset 0, the offset of its indexing (D6.6).",
+                " The frequency table is logged with offset 0, the offset of its indexing (D6.6)."
+                " The njit decorators of both move kernels do not narrow a local below 64 bit (D6.7).",
         "design_ref": "DESIGN.md section 4, C06",
         "note": "Decides D6.1-D6.5; the induction 'every registered y is "
                 "the true length' is by composition with C05. Trusted: "
@@ -465,7 +472,8 @@ CHECKS = {
                 "of the entry-by-entry copy verification, the 64-bit "
                 "accumulator, the 2^63 cap and the symmetry-flag protocol "
                 "are decided on the CFG / guard conditions."
-                " The stored matrix is a private copy: allocate-and-copyto or a converting constructor that always returns new storage, followed by the entry-by-entry verification; a conversion that may return its argument (asarray / view / copy=False) is a finding.",
+                " The stored matrix is a private copy: allocate-and-copyto or a converting constructor that always returns new storage, followed by the entry-by-entry verification; a conversion that may return its argument (asarray / view / copy=False) is a finding."
+                " The range multiplier is a factor of the requested limit outside of max(upper_bound, n).",
         "design_ref": "DESIGN.md section 4, C05",
         "note": "Decides D5.1-D5.4. Trusted: N1 (kernel integer scalars "
                 "are 64 bit), N3 (index -1 wraps), entries non-negative "
